@@ -3,6 +3,7 @@ package directive
 import (
 	"errors"
 	"strings"
+	"unicode/utf8"
 
 	"github.com/jsightapi/jsight-api-core/jerr"
 )
@@ -33,6 +34,11 @@ func (d Directive) Path() (string, error) {
 	// A blank cannot be a part of the path: it separates the fields of the interaction
 	// id ("http GET /path", "json-rpc-2.0 method /path"), which would become ambiguous.
 	if !strings.HasPrefix(path, "/") || strings.ContainsAny(path, " \t") {
+		return "", errors.New(jerr.IncorrectPath)
+	}
+	// Every invalid byte becomes U+FFFD in the JSON output: paths which differ in such
+	// bytes only would get the same interaction id (a duplicated key of "interactions").
+	if !utf8.ValidString(path) {
 		return "", errors.New(jerr.IncorrectPath)
 	}
 
